@@ -19,7 +19,7 @@ EXPLICIT = {
 }
 STARTS = [{}, {b"PATH": b"/usr/bin", b"LD_LIBRARY_PATH": b"", b"CPATH": b"c"},
           {b"PATH": b"p", b"LD_LIBRARY_PATH": b"l", b"LIBRARY_PATH": b"L", b"CPATH": b"C", b"PKG_CONFIG_PATH": b"P"}]
-QUERIES = [(s, st) for s in ["all", "build", "launch", "process:web", "process:none"] for st in STARTS]
+BASE_QUERIES = [(s, st) for s in ["all", "build", "launch", "process:web", "process:none"] for st in STARTS]
 IMPLICIT_VARS = [b"PATH", b"LD_LIBRARY_PATH", b"LIBRARY_PATH", b"CPATH", b"PKG_CONFIG_PATH"]
 
 
@@ -76,6 +76,11 @@ def run_case(mon, base, idx, dname, assignment, xname, sh):
                 sh.violation("write:error", "write_to_layer_dir failed: %s" % rep["detail"], case)
                 return
         before = vp.snapshot(d)
+        # starting environments that already mention the layer's own directories (a second application, an earlier buildpack
+        # having exported them): the implicit entries are prepended all the same
+        own = [{b"PATH": b"/usr/bin:" + os.path.join(d, b"bin"), b"LD_LIBRARY_PATH": os.path.join(d, b"lib"), b"LIBRARY_PATH": os.path.join(d, b"lib") + b":/x",
+                b"CPATH": os.path.join(d, b"include"), b"PKG_CONFIG_PATH": b"/p:" + os.path.join(d, b"pkgconfig") + b":/q"}]
+        QUERIES = BASE_QUERIES + [(sc, st) for sc in ["all", "build", "launch", "process:web"] for st in own]
         for cycle in range(4):
             rep = mon.call({"op": "read_apply", "dir": hx(d), "queries": enc_queries(QUERIES)})
             if "err" in rep:
